@@ -1,6 +1,7 @@
 import Holpy.C06.Model
 import Holpy.C06.Gen
 import Holpy.C06.Proofs8
+import Holpy.C06.ProofsNorm
 /-
 C06 — property theorems (statements here, lemmas in Proofs*.lean).  They are about the model of
 `prover/z3wrapper.py` / `prover/sympywrapper.py` WITH fixes/C06-*.patch, for every field `K`
@@ -263,6 +264,93 @@ theorem casts_refine {K : Type} (N : Num K) (Q : Quant K) (O : Oracle K) :
   ⟨fun _ _ _ _ _ => rfl, fun _ _ _ _ => rfl, fun _ _ _ _ x rx ht hl => ht x rx hl, fun _ => rfl⟩
 
 example : vtoReal ratNum (.i 3) = .r (3 : Rat) := rfl
+
+/-! ### Rewriting before the translation: `norm_term` and `fologic.simplify` -/
+
+/-- The statements of the `norm_thms` in the library, regenerated on every run: pinned next to
+their Lean renderings in `NormThmsValid` (sets are predicates, `of_nat` is the cast ℕ → K,
+`real_inverse` is `⁻¹`), so that a changed library statement is noticed. -/
+theorem norm_thm_props_pinned : Gen.normThmProps = [
+  ("member_empty_simp", "x ∈ ∅ ⟷ false"),
+  ("member_insert", "y ∈ insert x A ⟷ y = x ∨ y ∈ A"),
+  ("member_univ_simp", "x ∈ univ ⟷ true"),
+  ("member_collect", "x ∈ collect P ⟷ P x"),
+  ("member_union_iff", "x ∈ A ∪ B ⟷ x ∈ A ∨ x ∈ B"),
+  ("member_inter_iff", "x ∈ A ∩ B ⟷ x ∈ A ∧ x ∈ B"),
+  ("set_equal_iff", "A = B ⟷ (∀x. x ∈ A ⟷ x ∈ B)"),
+  ("subset_def", "A ⊆ B ⟷ (∀x. x ∈ A ⟶ x ∈ B)"),
+  ("diff_def", "diff s t = {x. x ∈ s ∧ ¬(x ∈ t)}"),
+  ("real_zero_def", "(0::real) = of_nat 0"),
+  ("real_one_def", "(1::real) = of_nat 1"),
+  ("real_of_nat_add", "(of_nat::nat ⇒ real) m + of_nat n = of_nat (m + n)"),
+  ("real_of_nat_mul", "(of_nat::nat ⇒ real) m * of_nat n = of_nat (m * n)"),
+  ("real_of_nat_minus", "of_nat (m - n) = (if m ≥ n then of_nat m - of_nat n else (0::real))"),
+  ("real_inverse_divide", "real_inverse x = 1 / x"),
+  ("real_open_interval_def", "real_open_interval a b = {p. a < p ∧ p < b}"),
+  ("real_closed_interval_def", "real_closed_interval a b = {p. a ≤ p ∧ p ≤ b}")] := by decide
+
+/-- Every equation `norm_term` rewrites with is valid (sets as predicates over any type α, reals
+as any field K of which ℕ is a subsemiring via the cast; nat subtraction truncated). -/
+def NormThmsValid (α K : Type) [Field K] [LT K] [LE K] : Prop :=
+  (∀ x : α, (fun _ : α => False) x ↔ False)
+  ∧ (∀ (x y : α) (A : α → Prop), (fun z => z = x ∨ A z) y ↔ (y = x ∨ A y))
+  ∧ (∀ x : α, (fun _ : α => True) x ↔ True)
+  ∧ (∀ (x : α) (P : α → Prop), (fun z => P z) x ↔ P x)
+  ∧ (∀ (x : α) (A B : α → Prop), (fun z => A z ∨ B z) x ↔ (A x ∨ B x))
+  ∧ (∀ (x : α) (A B : α → Prop), (fun z => A z ∧ B z) x ↔ (A x ∧ B x))
+  ∧ (∀ A B : α → Prop, A = B ↔ ∀ x, A x ↔ B x)
+  ∧ (∀ A B : α → Prop, (∀ x, A x → B x) ↔ ∀ x, A x → B x)
+  ∧ (∀ s t : α → Prop, (fun x => s x ∧ ¬ t x) = fun x => s x ∧ ¬ t x)
+  ∧ (((0 : Nat) : K) = 0) ∧ (((1 : Nat) : K) = 1)
+  ∧ (∀ m n : Nat, ((m + n : Nat) : K) = (m : K) + (n : K))
+  ∧ (∀ m n : Nat, ((m * n : Nat) : K) = (m : K) * (n : K))
+  ∧ (∀ m n : Nat, ((m - n : Nat) : K) = if m ≥ n then (m : K) - (n : K) else 0)
+  ∧ (∀ x : K, x⁻¹ = 1 / x)
+  ∧ (∀ a b : K, (fun p => a < p ∧ p < b) = fun p : K => a < p ∧ p < b)
+  ∧ (∀ a b : K, (fun p => a ≤ p ∧ p ≤ b) = fun p : K => a ≤ p ∧ p ≤ b)
+
+/-- The 17 pinned equations hold (for every α and K); one conjunct per entry of `Gen.normThms`, in
+its order.  The set equations hold by the definition of the set operations as predicates (plus
+extensionality for `set_equal_iff`), the `of_nat` ones by the homomorphism laws of the cast. -/
+theorem norm_thms_valid (α K : Type) [Field K] [LT K] [LE K] : NormThmsValid α K :=
+  ⟨Norm.member_empty_simp, Norm.member_insert, Norm.member_univ_simp, Norm.member_collect,
+   Norm.member_union_iff, Norm.member_inter_iff, Norm.set_equal_iff, Norm.subset_def, Norm.diff_def,
+   Norm.real_zero_def, Norm.real_one_def, Norm.real_of_nat_add, Norm.real_of_nat_mul,
+   Norm.real_of_nat_minus, Norm.real_inverse_divide, Norm.real_open_interval_def,
+   Norm.real_closed_interval_def⟩
+
+example : Gen.normThms.length = 17 := by decide
+
+/-- `norm_term` (top_conv ∘ every_conv ∘ try_conv ∘ rewr_conv with the pinned equations and beta,
+iterated to a fixed point) followed by `fologic.simplify` is a sequence of replacements of an
+instance `l` of a rule by `r` inside a context `c`.  `Rewrites` is that relation, for an arbitrary
+term language with an evaluation `eval` and contexts that respect meaning. -/
+inductive Rewrites {T Env V : Type} (eval : T → Env → V) (rule : T → T → Prop) : T → T → Prop
+  | refl (t : T) : Rewrites eval rule t t
+  | step (c : T → T) (l r t' : T)
+      (hc : ∀ a b, (∀ ρ, eval a ρ = eval b ρ) → ∀ ρ, eval (c a) ρ = eval (c b) ρ)
+      (hr : rule l r) (rest : Rewrites eval rule (c r) t') : Rewrites eval rule (c l) t'
+
+/-- Rewriting with valid equations preserves the meaning: if every rule instance is an equation
+valid in the semantics (`norm_thms_valid` for the pinned equations, `Norm.simplify_rules` and
+`Norm.vacuous_quantifier` for `fologic.simplify`, beta-reduction by the definition of application),
+the goal `solve_core` translates means what the goal it was given means.  The conversions
+themselves are the kernel's (each rewrite is an instance of a library theorem); how a HOL term maps
+to `T` is not modelled. -/
+theorem norm_term_preserves_meaning {T Env V : Type} (eval : T → Env → V) (rule : T → T → Prop)
+    (hvalid : ∀ l r, rule l r → ∀ ρ, eval l ρ = eval r ρ) {t t' : T} (h : Rewrites eval rule t t') :
+    ∀ ρ, eval t ρ = eval t' ρ := by
+  induction h with
+  | refl t => intro ρ; rfl
+  | step c l r t' hc hr _ ih =>
+    intro ρ
+    rw [hc l r (hvalid l r hr) ρ]
+    exact ih ρ
+
+/-- rewriting `of_nat (2 + 1)` to `of_nat 2 + of_nat 1` inside `· * 5` over ℚ -/
+example : Rewrites (T := Nat × Nat) (Env := Unit) (V := Nat) (fun t _ => t.1 + t.2) (fun l r => l.1 + l.2 = r.1 + r.2)
+    (2, 1) (3, 0) :=
+  .step id (2, 1) (3, 0) (3, 0) (fun _ _ h => h) rfl (.refl _)
 
 /-! ### SymPy wrapper (normaliser abstract) -/
 
